@@ -6,8 +6,9 @@ import SamplyModel.Model.FileCreationAsync
 Line protocol for C16. One case = one op line.
 
 `trace <scenario> chunks=<c> failat=<k>`
-    scenario ∈ success | writer_error | existing | blocked_existing | blocked_absent | rename_error |
-               part_open_error | lock_open_error.
+    scenario ∈ success | writer_error | cancelled (future dropped inside the callback after `failat` chunks:
+               `close P`, `unlink part` (drop guard), `close L`) | existing | blocked_existing | blocked_absent |
+               rename_error | part_open_error | lock_open_error.
     out: the system calls the traced creator issues on dest / dest.part / dest.lock, canonicalised
     (`open lock creat`, `flock L ex,nb -> ok|wouldblock`, `flock L ex -> ok`, `stat dest -> file|nofile`,
     `open part creat,trunc`, `write P`, `close P`, `rename part dest -> ok|err`, `unlink part`, `close L`,
@@ -50,8 +51,10 @@ Line protocol for C16. One case = one op line.
     blocks on the lock (held by the harness), gets it, opens `.part`, hands its `write_all` to the blocking pool
     and is cancelled (future dropped) in `flush().await`; creator B (another version of the `.sym`, `IB` bytes of
     index) then creates the `.symindex`; finally the pool thread is released and A's queued write is executed.
-    The model is `FCA.next false` (Model/FileCreationAsync.lean): the code as it is.
-    out: `cancelwrite a=cancelled part_at_cancel=<len>`, `after_b lookup=ok symindex=complete`,
+    The model is `FCA.next false` (Model/FileCreationAsync.lean): the code as it is — since the repair the
+    cancelled creator's drop guard has unlinked `.part` (`part_at_cancel=-1`), B makes a new inode and A's
+    write lands on the nameless one.
+    out: `cancelwrite a=cancelled part_at_cancel=<len|-1>`, `after_b lookup=ok symindex=complete`,
     `observations bad=<0|1>`, `final symindex=complete|bad`.
 
 `cancelwrite site=download …`: the same on the downloader call site (A's download is cancelled in
@@ -372,6 +375,7 @@ def simTrace (ws : List String) : List String := Id.run do
   match scenario with
   | "success" => sim := drain cfg (pre .ok sim) [0]
   | "writer_error" => sim := drain cfg (pre (.fail failat) sim) [0]
+  | "cancelled" => sim := drain cfg (pre (.cancel failat) sim) [0]
   | "rename_error" => sim := drain cfg (pre .failRename sim) [0]
   | "part_open_error" => sim := drain cfg (pre .failOpenPart sim) [0]
   | "lock_open_error" => sim := drain cfg (pre .failOpenLock sim) [0]
@@ -591,7 +595,7 @@ def judgeCancelWrite (_ws impl : List String) : Bool × String :=
     else if (kv a "symindex").getD "?" ≠ "complete" ∨ (kv a "lookup").getD "?" ≠ "ok" then
       (false, s!"after the cancelled attempt a second creator did not produce the complete file (lookup={(kv a "lookup").getD "?"} symindex={(kv a "symindex").getD "?"})")
     else if (kv f "symindex").getD "?" ≠ "complete" ∨ kvNat b "bad" 1 ≠ 0 then
-      (false, s!"[cancel-inflight-write] after a creator had returned success with the complete file at the final path, the final path holds {(kv f "symindex").getD "?"}: a write issued by the cancelled creator was executed after its lock had been released")
+      (false, s!"after a creator had returned success with the complete file at the final path, the final path holds {(kv f "symindex").getD "?"}: a write issued by the cancelled creator was executed on the published file")
     else (true, "ok")
   | _, _, _, _ => (false, "missing summary lines")
 
